@@ -6,6 +6,7 @@ import AutosarVerif.Model.FileOps
 import AutosarVerif.Model.Load
 import AutosarVerif.Model.Serialize
 import AutosarVerif.Model.Step
+import AutosarVerif.Model.Iter
 import Driver.Proto
 
 namespace AV.WDriver
@@ -58,7 +59,7 @@ def step (S : Spec) (V : Env) (validVer : Nat â†’ Bool) (rootAttrs : List (Nat Ã
   | ["rmtext", x, q] => match E x, q.toNat? with
     | some x, some q => some (applyOp S V rootAttrs w (.rmtext x q)) | _, _ => some (w, "bad-op")
   | ["setref", x, t] => match E x, E t with
-    | some x, some t => some (sh (opSetRef S V w x t)) | _, _ => some (w, "bad-op")
+    | some x, some t => some (applyOpX S V rootAttrs w (.setref x t)) | _, _ => some (w, "bad-op")
   | ["attr", x, a, v] => match E x, a.toNat?, parseVal v with
     | some x, some a, some v => some (applyOp S V rootAttrs w (.attr x a v)) | _, _, _ => some (w, "bad-op")
   | ["attrs", x, a, h] => match E x, a.toNat?, bytesOfHex h with
@@ -100,6 +101,12 @@ def step (S : Spec) (V : Env) (validVer : Nat â†’ Bool) (rootAttrs : List (Nat Ã
   | ["range", p, n] => match E p, n.toNat? with
     | some p, some n => some (w, qRange S V w p n) | _, _ => some (w, "bad-op")
   | ["valid", p] => (E p).map fun p => (w, qValid S V w p)
+  | ["dfs", x, d] => match E x, d.toNat? with
+    | some x, some d => some (w, qDfs w x d) | _, _ => some (w, "bad-op")
+  | ["dfsf", f, d] => match parseHandle 'f' f, d.toNat? with
+    | some f, some d => some (w, qDfsFile w f d) | _, _ => some (w, "bad-op")
+  | ["subs", x] => match E x with
+    | some x => some (w, qSubs w x) | none => some (w, "bad-op")
   | ["dump"] => some (w, dumpWorld w)
   | ["addfile", x, f] => match E x, parseHandle 'f' f with
     | some x, some f => some (applyOp S V rootAttrs w (.addfile x f)) | _, _ => some (w, "bad-op")
